@@ -145,19 +145,20 @@ Definition served_ok (allowed : list version) (g : got) : Prop :=
   | Hit v data => In v allowed /\ data = v_body v
   end.
 
-(* after Get the name is served or free for a new fill (GetWriter refuses only a name that exists) *)
+(* after Get the name is served, or a new fill is granted its writer (GetWriter refuses only a name that holds an
+   entry; a file an interrupted fill left behind is cleared away by it) *)
 Definition refillable (d : disk) (s : slot) : Prop :=
   match fst (recover d s) with
   | Hit _ _ => True
-  | Miss => dget (snd (recover d s)) s = None
+  | Miss => writer_granted (snd (recover d s)) s = true
   end.
 
 Lemma recover_absent d s : dget d s = None -> fst (recover d s) = Miss /\ refillable d s.
-Proof. intros H. unfold refillable, recover. rewrite H. cbn [fst snd]. split; [reflexivity|exact H]. Qed.
+Proof. intros H. unfold refillable, recover, writer_granted. rewrite H. cbn [fst snd]. rewrite H. split; reflexivity. Qed.
 
 Lemma recover_partial d s data : dget d s = Some (mkFile data None) -> fst (recover d s) = Miss /\ refillable d s.
 Proof.
-  intros H. unfold refillable, recover. rewrite H. cbn [f_meta fst snd]. split; [reflexivity|apply dget_ddel_same].
+  intros H. unfold refillable, recover, writer_granted. rewrite H. cbn [f_meta fst snd]. rewrite H. cbn [f_meta]. split; reflexivity.
 Qed.
 
 Lemma recover_complete d s v : dget d s = Some (complete_entry v) -> fst (recover d s) = Hit v (v_body v) /\ refillable d s.
